@@ -144,12 +144,18 @@ def handle : List String → String
       let toks := (PlasVerif.Model.Tokenizer.tokenize PlasVerif.Model.Catcodes.defaultCats cps).map fromC01
       -- aux: the repaired variant of the known finding D49 (the correspondence accepts either, the as-is one is replayed)
       -- aux 2: the evaluator restricted to the proved fragment (`run_eq_texRun_language_partial`): `texRun fragOk` on all primitives
-      s!"{visStr (runProgram fuel toks)}\t{tvisStr (texProgram fuel toks)}\t{visStr (runProgramRepaired fuel toks)}\t{tvisStr (texRun fragOk fuel ⟨toks, primTable, []⟩)}"
+      -- the model gets 3·fuel+10: it spends up to two units per expansion where the Spec spends one, so it never runs out
+      -- of fuel on a program on which the Spec succeeds (cf. `run_eq_texRun_language_partial`: "for all sufficiently large fuel");
+      -- aux 3 repeats the Spec's answer for the implementation runner (time limits)
+      let sp := tvisStr (texProgram fuel toks)
+      s!"{visStr (runProgram (3 * fuel + 10) toks)}\t{sp}\t{visStr (runProgramRepaired (3 * fuel + 10) toks)}\t{tvisStr (texRun fragOk fuel ⟨toks, primTable, []⟩)}\t{sp}"
     | _, _ => "bad-op"
   | "progt" :: fuelW :: ws =>
     -- the same on an explicit token list
     match fuelW.toNat?, toks? ws with
-    | some fuel, some toks => s!"{visStr (runProgram fuel toks)}\t{tvisStr (texProgram fuel toks)}\t{visStr (runProgramRepaired fuel toks)}\t{tvisStr (texRun fragOk fuel ⟨toks, primTable, []⟩)}"
+    | some fuel, some toks =>
+      let sp := tvisStr (texProgram fuel toks)
+      s!"{visStr (runProgram (3 * fuel + 10) toks)}\t{sp}\t{visStr (runProgramRepaired (3 * fuel + 10) toks)}\t{tvisStr (texRun fragOk fuel ⟨toks, primTable, []⟩)}\t{sp}"
     | _, _ => "bad-op"
   | _ => "bad-op"
 
